@@ -47,13 +47,41 @@ def state_hashes(nas):
     return {k: thash(v) for k, v in nas.state_dict().items()}
 
 
+def observe_as_is(nas, xs, cost_names, what, seed=1234):
+    """What the model shows *before* the observer touches its mode or runs a forward: the cost of the
+    stored sample, whether it is differentiable and its gradient w.r.t. the architectural parameters
+    ('cost'), and one forward in whatever mode the model is in ('output')."""
+    snap = {}
+    if 'cost' in what:
+        nas_params = [p for p in nas.nas_parameters()]
+        for nm in cost_names:
+            try:
+                c = nas.cost if nm is None else nas.get_cost(nm)
+                snap[f'cost_{nm}'] = float(c)
+                snap[f'cost_{nm}_requires_grad'] = bool(c.requires_grad)
+                if c.requires_grad:
+                    gs = torch.autograd.grad(c, nas_params, retain_graph=True, allow_unused=True)
+                    snap[f'cost_{nm}_grad'] = [None if g is None else thash(g) for g in gs]
+            except Exception as e:
+                snap[f'cost_{nm}'] = 'ERR:' + type(e).__name__
+    if 'output' in what:
+        torch.manual_seed(seed)
+        with torch.no_grad():
+            y = nas(*xs)
+        snap['output'] = thash(y)
+    return snap
+
+
 def observe(nas, xs, cost_names, with_export=True, with_outputs=True, seed=1234, modes=('eval',
-                                                                                       'train')):
+                                                                                       'train'),
+            as_is=()):
     """Observation snapshot.  Forward passes are part of the observation (``after the usual forward
     pass''); a train-mode forward legitimately moves BatchNorm statistics, so two models are only
     comparable if both are observed with the same call."""
     snap = {}
     was_training = nas.training
+    if as_is:
+        snap['as_is'] = observe_as_is(nas, xs, cost_names, as_is, seed)
     # flags and parameters first: the forward passes below set the mode explicitly
     snap['training_flags'] = {n: m.training for n, m in nas.named_modules()}
     snap['requires_grad'] = {n: bool(p.requires_grad) for n, p in nas.named_parameters()}
@@ -78,6 +106,7 @@ def observe(nas, xs, cost_names, with_export=True, with_outputs=True, seed=1234,
             if n in flags0:
                 m.training = flags0[n]
     try:
+        torch.manual_seed(seed + 1)      # (a Gumbel SuperNet samples inside summary())
         snap['summary'] = jsonify(nas.summary())
     except Exception as e:
         snap['summary'] = 'ERR:' + type(e).__name__ + str(e)[:80]
@@ -98,6 +127,24 @@ def observe(nas, xs, cost_names, with_export=True, with_outputs=True, seed=1234,
             if n in flags:
                 m.training = flags[n]
     return snap
+
+
+def as_is_loss(model_snap, twin_snap):
+    """One-sided comparison of two 'as is' observations (model under test vs its twin): the cost
+    values must agree; differentiability and gradients are compared only where the twin's cost is
+    differentiable (gaining a graph the twin does not have harms nothing)."""
+    out = []
+    a, b = model_snap.get('as_is', {}), twin_snap.get('as_is', {})
+    for k in sorted(set(a) | set(b)):
+        if k.endswith('_requires_grad'):
+            if b.get(k) and not a.get(k):
+                out.append('as_is.' + k + ' (lost)')
+        elif k.endswith('_grad'):
+            if k in b and k in a and a[k] != b[k]:
+                out.append('as_is.' + k)
+        elif a.get(k) != b.get(k):
+            out.append('as_is.' + k)
+    return out
 
 
 def diff(a, b, prefix=''):
